@@ -21,18 +21,10 @@ def strip_iter(t):
 
 
 def identity_prefixed(received):
-    """a commitment vector that is [identity] ++ received: collect(chain(<one identity commitment>, received)) or the
-    received vector with insert(0, identity)"""
-    def one_identity(first):
-        f = strip_iter(first)
-        elems = None
-        if f[0] == "vec" and len(f[1]) == 1:
-            elems = f[1][0]
-        elif is_call(f, name="once") and len(f[2]) == 1:
-            elems = f[2][0]
-        elif f[0] == "agg" and f[1] == "array" and len(f[4]) == 1:
-            elems = f[4][0][1]
-        return elems is not None and mentions(elems, lambda s: is_call(s, name="identity")) and not mentions(elems, lambda s: s[0] == "arg")
+    """a commitment vector that is [identity] ++ received, in whatever way it is assembled (chain + collect, insert(0, ..) on a
+    copy, with_capacity + push + extend, once(..).chain(..), a helper that does one of these): its byte-sequence-style flattening
+    (sa/seq.py) is exactly [one identity commitment, the received vector]"""
+    from ..seq import flatten
 
     def m(t):
         t = unwrap_newtypes(t) if t[0] == "agg" and t[2] and t[2].endswith("VerifiableSecretSharingCommitment") else t
@@ -41,18 +33,16 @@ def identity_prefixed(received):
         if t[0] == "mut" and t[2] and all(len(o) > 4 and o[4][:1] == ("0",) for o in t[2]):
             # updates of the newtype's inner vector
             t = ("mut", ("field", t[1], None, "0"), tuple(("op", o[1], o[2], o[3], o[4][1:]) for o in t[2]))
-        if t[0] == "mut":
-            # in-place form: received.insert(0, identity)
-            ins = [o for o in t[2] if o[1] == "insert"]
-            return (len(ins) >= 1 and const(0)(ins[0][2][0]) and mentions(ins[0][2][1], lambda s: is_call(s, name="identity")) and
-                    not mentions(ins[0][2][1], lambda s: s[0] == "arg") and received(strip_iter(t[1])))
-        if not is_call(t, name="collect"):
+        comps = flatten(t)
+        if len(comps) != 2:
             return False
-        c = t[2][0]
-        if not is_call(c, name="chain"):
+        first, rest = comps
+        one = unwrap_newtypes(first)
+        if not (mentions(one, lambda s: is_call(s, name="identity")) and not mentions(one, lambda s: s[0] == "arg")):
             return False
-        first, second = c[2][0], c[2][1]
-        return one_identity(first) and received(strip_iter(second))
+        if isinstance(rest, tuple) and rest and rest[0] == "each":
+            rest = rest[1]
+        return bool(received(strip_iter(rest)))
     return m
 
 
